@@ -8,11 +8,12 @@ a.map_blocks(np.digitize, bins=bins, right=right)                    `daDigitize
 np.digitize: mono = _monotonicity(bins) (ValueError when 0);
   side = 'left' if right else 'right';
   mono == -1:  len(bins) - searchsorted(bins[::-1], x, side)
-  else:        searchsorted(bins, x, side)                           `monoOf`, `digitize1`
+  else:        searchsorted(bins, x, side)                           `isInc`, `isDec`, `digitize1`
 compress(condition, a, axis): a = a[:len(condition)] along the axis,
   then a[condition]; a dask condition goes through
   slice_with_bool_dask_array = blockwise(getitem) on the chunks
   common to the axis and the condition                              `compress`, `compressChunked cs`
+  (a NumPy condition may be longer than the axis if its surplus is False) `compressNp`
 extract(condition, arr) = compress(condition.ravel(), arr.ravel())   `extract`
 Values are `Nat`; `np.searchsorted` on a sorted list is specified as a count (`sidePred`).
 Import-free (linked into the native driver).
@@ -62,6 +63,12 @@ def compress {α} (cond : List Bool) (xs : List α) : Option (List α) :=
 def compressChunked {α} (cs : List Nat) (cond : List Bool) (xs : List α) : Option (List (List α)) :=
   if xs.length < cond.length then none
   else some (List.zipWith selectBy (splitBy cs cond) (splitBy cs (xs.take cond.length)))
+
+/-- `da.compress` with a NumPy condition (its values are known when the graph is built): surplus entries beyond the
+    axis must all be False (`none` = IndexError, as in NumPy), then the condition is cut to the axis -/
+def compressNp {α} (cond : List Bool) (xs : List α) : Option (List α) :=
+  if (cond.drop xs.length).any id then none
+  else some (selectBy (cond.take xs.length) (xs.take (cond.take xs.length).length))
 
 /-- `da.extract(cond, arr)` on the C-order flattenings -/
 def extract {α} (condFlat : List Bool) (arrFlat : List α) : Option (List α) := compress condFlat arrFlat
